@@ -112,7 +112,7 @@ func setOpsShapes(r *rand.Rand, per int) []*Case {
 
 // runSetOps: ListUsers, Check and ListObjects over nested set operations with wildcards.
 func runSetOps(ctx context.Context, v *Variants, rec *Recorder, run *Run, r *rand.Rand, cases int, what string) {
-	all := setOpsShapes(r, run.Pick(4, 12))
+	all := setOpsShapes(r, run.Pick(10, 20))
 	for i := 0; i < cases; i++ {
 		all = append(all, setOpsCase(r, -100-i))
 	}
